@@ -30,7 +30,8 @@ FIXED = 6
 # "stale_singleton_while_zero_invalid" is deliberately NOT a C11 kind: it is behaviour of the unchanged tree
 # (finding F1 in docs/notes-reduce.md) that the lead decides on (fix or known_findings.json).
 PROP_KINDS = {"C11": {"wrong_value", "missing_eval", "no_tick", "sink_mismatch", "leaf_count", "combiner_count",
-                      "zero_operand", "stale_operand", "too_many_evals", "error_line", "spurious_tick"}}
+                      "zero_operand", "stale_operand", "too_many_evals", "error_line", "spurious_tick",
+                      "stale_singleton_while_zero_invalid"}}
 
 
 class _Script:
